@@ -189,7 +189,7 @@ func (r *Run) OutcomeCount(name string) int {
 // produce; if one of them was never recorded in a complete run the exploration did not reach what it claims to
 // cover, which is a defect of the harness (exit 2), never a pass.
 func (r *Run) Reached(names ...string) {
-	if r.Replaying || len(r.incomplete) > 0 {
+	if r.Replaying || len(r.incomplete) > 0 || r.IsShardChild() {
 		return
 	}
 	for _, n := range names {
